@@ -5,24 +5,31 @@ PROP = "C16"
 
 TRUSTED = [
     "Coq 8.16.1 kernel (coqc), vm_compute for case evaluation; no native_compute",
-    "hand-written model props/C16/coq/Model.v of searchShard/searchStores/Search/MergeQPRs(IDs)/paginateIDs and of "
-    "lessFuncPosBased/mergedDocStream/newNMergedStreams/mergedStreamIterator (tied to /repo by the correspondence run)",
-    "Go harness harness/cmd/hC16: scripted fake StoreApiClients (search answers, fetch streams), canonicalisation of "
-    "source numbers to host indices through the add-only export VerifC16SourceByClient",
+    "hand-written model props/C16/coq/Model.v of searchShard/searchStores/Search/MergeQPRs (IDs, Total with the "
+    "duplicate repair, histogram, aggregations, soft errors)/paginateIDs, of doSearch/processSearchErrors/"
+    "parseProxyError (API answer), of lessFuncPosBased/mergedDocStream/newNMergedStreams/mergedStreamIterator and of "
+    "Documents/expandIDsBySources/uniqueIDIterator (tied to /repo by the correspondence run)",
+    "Go harness harness/cmd/hC16: scripted fake StoreApiClients (search answers with totals/histograms/aggregations/"
+    "soft errors, fetch streams), real proxyapi Search/ComplexSearch handlers through the add-only export "
+    "VerifC16NewGrpcV1, canonicalisation of source numbers through VerifC16SourceByClient",
     "sort.Sort enters the theorems as an arbitrary function returning a sorted permutation",
 ]
 ASSUME = [
-    "ShuffleReplicas = false (replica order is the configured order)",
-    "store answers carry no soft errors (qpr.Errors empty), no histogram/aggregation part is compared",
-    "proxyapi Search/ComplexSearch flag mapping (error/partial_response) is not driven (cut, see report)",
+    "aggregation values are integers (exact in float64); fewer than 8096 samples per bin (reservoir replacement not modelled)",
+    "stores answer with at most as many aggregations as requested (more makes MergeQPRs index out of range)",
+    "replica errors are not gRPC InvalidArgument statuses (the bad-query path of doSearch is not driven)",
+    "request validation of the handlers (size > 0, query/from/to present), rate limiting, mirroring, explain: not modelled",
     "context cancellation and timeouts are not modelled",
 ]
 RULE = ("exhaustive: hot tier 2 shards x 2 replicas, all 5^4 behaviour assignments x cold tier {none, ok, error, "
         "wants-old}; random: topologies up to 3 shards x 3 replicas (+ hot-read tier, + cold tier up to 3 x 2) with "
-        "behaviours {ok, error, wants-old, too-many-fractions, too-many-uniq}, overlapping or disjoint ID sets, "
-        "offset/size/order, fetch streams edited by drop/blank/truncate(+error)/unrequested/swap/duplicate/reverse, "
-        "failing fetch calls; direct FetchDocsStream on 1-4 stores with arbitrary request lists. non-trivial = a "
-        "search script with at least one non-ok replica / a fetch of >= 2 IDs; distinct by script")
+        "behaviours {ok, error, wants-old, too-many-fractions, too-many-uniq}, ShuffleReplicas on a quarter (replicas "
+        "listed in the observed call order), overlapping or disjoint ID sets, offset/size/order, totals / histograms "
+        "(interval 0,1,2,5) / up to 2 aggregations with up to 3 bins / soft errors on half of the scripts, a quarter "
+        "each through the real proxyapi Search and ComplexSearch handlers; fetch streams edited by drop/blank/"
+        "truncate(+error)/unrequested/swap/duplicate/reverse, failing fetch calls; direct FetchDocsStream on 1-4 "
+        "stores with arbitrary request lists; Ingestor.Documents on 1-3 stores. non-trivial = a search script with at "
+        "least one non-ok replica / a fetch of >= 2 IDs / Documents of >= 2 IDs on >= 2 stores; distinct by script")
 
 
 def harness_args(tier, seed, outdir):
